@@ -27,6 +27,7 @@ import (
 
 	"verif/internal/corpus"
 	"verif/internal/fw"
+	"verif/internal/gen"
 )
 
 func init() {
@@ -376,6 +377,21 @@ func c20One(c *fw.Ctx, id string, i int, pool []string, exe string) {
 			spec.Names[n] = n
 		}
 		c.Count("packages_with_type_only_imports_file", 1)
+	}
+	// a file without a parenthesised import declaration (go/format then prints the restored ast
+	// directly, without its sort-imports re-parse) whose aligned blocks carry trailing block comments
+	if scenario != "parsedir-unedited" && i%3 == 2 {
+		dir := filepath.Dir(spec.Files[0])
+		fn := filepath.Join(dir, "zz_blockcomments.go")
+		raw := "package gen\n\nimport \"fmt\"\n\nconst (\n\tDebug = iota /* verbose */\n\tInfo /* default */\n\tWarning\n\tError /* last */\n)\n\ntype S struct {\n\tA int `json:\"a\"` /* first */\n\tBcd string /* second */\n\tfmt.Stringer /* embedded */\n\tlast bool\n}\n\nvar (\n\tx, y = 1, 2 /* pair */\n\tlonger int /* typed */\n)\n\nvar _ = fmt.Sprint\n"
+		if src, ok := gen.Canonicalise([]byte(raw)); ok {
+			os.WriteFile(fn, src, 0644)
+			orig[fn] = src
+			spec.Files = append(spec.Files, fn)
+			spec.Edit = append(spec.Edit, false)
+			spec.Names["fmt"] = "fmt"
+			c.Count("packages_with_block_comment_file", 1)
+		}
 	}
 	if scenario == "parsedir-unedited" {
 		spec.Mode = "parsedir"
